@@ -116,6 +116,43 @@ def check(run):
     eq = rx.equal(rx.dfa_of(hexre), rx.dfa_of(GR.HEX_RUN))
     run.ob("R3-acceptance", "decoders.hex.HEX_RE/same-case-pairs", eq, f"{hm.rel}:1", "the hex pattern is exactly: >= 10 lower-case pairs or >= 10 upper-case pairs",
            "language differs from (?:[0-9a-f]{2}){10,}|(?:[0-9A-F]{2}){10,}", mech="language equality")
+    # leftmost-first alternation: the alternative tried first wins as soon as it matches a PREFIX, so a documented unit of one kind
+    # must not have a prefix that an earlier alternative accepts (digits belong to both hex alphabets).  Units are taken followed
+    # by a neutral delimiter (a space); look-aheads at the start of an alternative are evaluated on that text.
+    oa = rx.ordered_alternatives(hexre)
+    units = {"lower-case run": rb"(?:[0-9a-f]{2}){10,}", "upper-case run": rb"(?:[0-9A-F]{2}){10,}"}
+    if oa is not None:
+        alts, fl_ = oa
+        S_, W_ = [], []
+        for la, body in alts:
+            bd = rx.compile_tree(body, fl_).dfa
+            starts = rx.quotient_byte(rx.concat_sigma_star(bd), 0x20)          # the body matches a prefix of w + ' '
+            whole = bd
+            if la is not None:
+                lad = rx.quotient_byte(rx.concat_sigma_star(rx.compile_tree(la, fl_).dfa), 0x20)
+                starts = rx.product(starts, lad, lambda x, y: x and y)
+                whole = rx.product(whole, lad, lambda x, y: x and y)
+            S_.append(starts)
+            W_.append(whole)
+        for uname, upat in units.items():
+            U = rx.dfa_of(upat)
+            wit = None
+            for i in range(len(alts)):
+                v = rx.product(U, S_[i], lambda x, y: x and y)
+                v = rx.product(v, rx.complement(W_[i]), lambda x, y: x and y)
+                for j in range(i):
+                    v = rx.product(v, rx.complement(S_[j]), lambda x, y: x and y)
+                if not rx.is_empty(v):
+                    _ok, w_ = rx.included(v, rx.DFA([[]], [False]), witness=True)
+                    wit = (i + 1, w_)
+                    break
+            run.ob("R3-acceptance", f"decoders.hex.HEX_RE/unit-matched-whole/{uname}", wit is None, f"{hm.rel}:1",
+                   f"a {uname} of >= 10 hex pairs between neutral delimiters is matched as a whole: no alternative tried earlier accepts a mere prefix of it",
+                   f"alternative #{wit[0]} wins on a prefix of {wit[1]!r} (it is tried first and digits belong to both alphabets): the run is cut short" if wit else "",
+                   mech="ordered-alternation analysis: prefix languages of the alternatives in priority order")
+    else:
+        run.ob("R3-acceptance", "decoders.hex.HEX_RE/unit-matched-whole", False, f"{hm.rel}:1",
+               "the hex pattern is one alternation of the two same-case runs", "HEX_RE is not a single alternation: priority analysis not applicable", mech="regex parse tree")
     psre = prog.const(pm, "POWERSHELL_BYTES_RE")
     dps = rx.dfa_of(psre)
     lower = rx.dfa_of(rb"(?:" + GR.PS_BYTE + rb",\s*){500,}" + GR.PS_BYTE)
@@ -242,7 +279,7 @@ def check(run):
     run.ob("R3-acceptance", "decoders.base64.find_base64/rejection-guards", ok, f"{bm.rel}:{convs[0].lineno}",
            "a candidate is decoded iff its length is a multiple of 4, it has more than 6 distinct characters, it is not pure hex, not pure letters "
            "and not slash-heavy (> 3/32)", f"guards are {G.show(pc)}; differ from the statement at {G.show_model(cm) if cm else ''}", mech="truth table")
-    run.floor("R3-acceptance", 15)
+    run.floor("R3-acceptance", 17)
 
     # ------------------------------------------------------------------ R4 xor
     xm = prog.mod("xor_helper")
